@@ -3,6 +3,7 @@ package govc
 import (
 	"go/ast"
 	"go/types"
+	"strconv"
 	"strings"
 
 	"bngvc/smt"
@@ -374,4 +375,89 @@ func init() {
 	AssumedLib = append(AssumedLib,
 		"crypto/md5.New/sha256.New: Sum(b) returns a non-nil slice of len(b)+digest size (16/32); Write never fails or panics",
 		"(*net.UDPConn).ReadFromUDP: on nil error 0 <= n <= len(buf) and addr != nil; buffer contents arbitrary")
+}
+
+func init() {
+	libModels["bytes.Equal"] = func(fv *funcVerifier, st *State, call *ast.CallExpr, fn *types.Func) []smt.Term {
+		a := fv.evalExpr(st, call.Args[0])
+		b := fv.evalExpr(st, call.Args[1])
+		return []smt.Term{fv.c.Let("bytesEq", fv.sameBytes(st, a, b))}
+	}
+	AssumedLib = append(AssumedLib, "bytes.Equal(a,b) <=> len(a)==len(b) and all bytes equal")
+}
+
+// sameBytes is content equality of two byte slices in state st.
+func (fv *funcVerifier) sameBytes(st *State, a, b smt.Term) smt.Term {
+	key := fv.memKey(types.Typ[types.Uint8])
+	fv.instFrames(key, slArr(a))
+	fv.instFrames(key, slArr(b))
+	m := fv.heapGet(st, key)
+	fv.nQuant++
+	i := smt.Term{S: "i_eq!" + itoa(fv.nQuant), Sort: smt.Int}
+	return smt.And(smt.Eq(slLen(a), slLen(b)),
+		smt.Forall([]smt.Term{i}, smt.Implies(smt.And(smt.Ge(i, smt.IntLit(0)), smt.Lt(i, slLen(a))),
+			smt.Eq(smt.Select(smt.Select(m, slArr(a)), smt.Add(slOff(a), i)), smt.Select(smt.Select(m, slArr(b)), smt.Add(slOff(b), i))))))
+}
+
+func itoa(n int) string { return strconv.Itoa(n) }
+
+func init() {
+	// sync/atomic on addressable operands: atomic.AddUint64(&x.f, d) etc. are modelled as the plain operation
+	atomicOperand := func(fv *funcVerifier, st *State, e ast.Expr) (lval, bool) {
+		u, ok := ast.Unparen(e).(*ast.UnaryExpr)
+		if !ok || u.Op.String() != "&" {
+			return lval{}, false
+		}
+		return fv.tryLval(st, u.X)
+	}
+	for _, ty := range []string{"Int32", "Int64", "Uint32", "Uint64", "Uintptr"} {
+		ty := ty
+		libModels["sync/atomic.Add"+ty] = func(fv *funcVerifier, st *State, call *ast.CallExpr, fn *types.Func) []smt.Term {
+			lv, ok := atomicOperand(fv, st, call.Args[0])
+			d := fv.evalExpr(st, call.Args[1])
+			if !ok {
+				fv.evalExpr(st, call.Args[0])
+				fv.note("atomic.Add on a non-addressable operand: pointee havocked")
+				fv.havocExternal(st, call, fn.Type().(*types.Signature))
+				return fv.freshResults(st, call, "atomic")
+			}
+			nv := fv.wrapNear(smt.Add(lv.load(), d), lv.typ)
+			lv.store(nv)
+			return []smt.Term{nv}
+		}
+		libModels["sync/atomic.Load"+ty] = func(fv *funcVerifier, st *State, call *ast.CallExpr, fn *types.Func) []smt.Term {
+			lv, ok := atomicOperand(fv, st, call.Args[0])
+			if !ok {
+				fv.evalExpr(st, call.Args[0])
+				return fv.freshResults(st, call, "atomic")
+			}
+			return []smt.Term{lv.load()}
+		}
+		libModels["sync/atomic.Store"+ty] = func(fv *funcVerifier, st *State, call *ast.CallExpr, fn *types.Func) []smt.Term {
+			lv, ok := atomicOperand(fv, st, call.Args[0])
+			v := fv.evalExpr(st, call.Args[1])
+			if !ok {
+				fv.evalExpr(st, call.Args[0])
+				fv.havocExternal(st, call, fn.Type().(*types.Signature))
+				return nil
+			}
+			lv.store(v)
+			return nil
+		}
+		libModels["sync/atomic.CompareAndSwap"+ty] = func(fv *funcVerifier, st *State, call *ast.CallExpr, fn *types.Func) []smt.Term {
+			lv, ok := atomicOperand(fv, st, call.Args[0])
+			o := fv.evalExpr(st, call.Args[1])
+			n := fv.evalExpr(st, call.Args[2])
+			if !ok {
+				fv.evalExpr(st, call.Args[0])
+				fv.havocExternal(st, call, fn.Type().(*types.Signature))
+				return fv.freshResults(st, call, "cas")
+			}
+			cur := lv.load()
+			hit := fv.c.Let("cas", smt.Eq(cur, o))
+			lv.store(smt.Ite(hit, n, cur))
+			return []smt.Term{hit}
+		}
+	}
+	AssumedLib = append(AssumedLib, "sync/atomic Add/Load/Store/CompareAndSwap on &x.f are the plain sequential operations (no interleaving between the atomic and other accesses is modelled)")
 }
